@@ -34,7 +34,8 @@ CONSTANTS
   InitCfg,
   EjectShares,   \* shares (in span-size units) for memory-pressure ejection; {} = off
   StressRates,   \* set of [keep, rate] stress-relief verdicts; {} = no stress path
-  ArriveUntil    \* new (non-late) spans arrive only while now <= ArriveUntil (MaxNow for safety runs)
+  ArriveUntil,   \* new (non-late) spans arrive only while now <= ArriveUntil (MaxNow for safety runs)
+  ReloadPairs    \* set of <<c1, c2>>: a config change to c2 arriving WHILE the monitor is processing the reload for c1
 
 VARIABLES
   now,      \* clock
@@ -252,6 +253,14 @@ ReloadCfg(c) ==
   /\ act' = [name |-> "ReloadCfg", cfg |-> c]
   /\ UNCHANGED <<now, buf, dec, fwd, ndec, ndrop, nextId, epoch, local>>
 
+\* A second configuration change arrives while the monitor goroutine is still inside reloadConfigs for the
+\* first one (the reload notification channel holds one pending signal): no change may be lost - once the
+\* collector is quiescent again the configuration in force is the LAST one.
+ReloadCfgDuring(c1, c2) ==
+  /\ cfg' = c2
+  /\ act' = [name |-> "ReloadCfgDuring", cfg1 |-> c1, cfg2 |-> c2]
+  /\ UNCHANGED <<now, buf, dec, fwd, ndec, ndrop, nextId, epoch, local>>
+
 (***************************************************************************)
 (* Stress relief: ProcessSpanImmediately for a span of trace t with the    *)
 (* stress-relief verdict sv (only for a trace that is not buffered: the    *)
@@ -297,6 +306,7 @@ Next ==
   \/ \E w \in Workers, s \in EjectShares : Eject(w, s)
   \/ ReloadRules
   \/ \E c \in Cfgs : ReloadCfg(c)
+  \/ \E pr \in ReloadPairs : ReloadCfgDuring(pr[1], pr[2])
   \/ \E t \in Traces, sh \in SpanShapes, sv \in StressRates : StressSpan(t, sh, sv)
 
 Spec == Init /\ [][Next]_vars
@@ -393,7 +403,8 @@ Abs == [ now |-> now,
          buf |-> [t \in Traces |-> BufAbs(t)],
          fwdSet |-> fwd,
          ndec |-> ndec,
-         ndrop |-> ndrop ]
+         ndrop |-> ndrop,
+         hostOn |-> cfg.addHost ]      \* whether spans forwarded now would carry the hostname (the one option the collector caches)
 \* constants the harness needs to build the matching real collector
 Params == [ tt |-> TraceTimeout, sd |-> SendDelay, sl |-> SpanLimit, me |-> MaxExpired,
             workerOf |-> WorkerOf, verdicts |-> Verdicts, reasons |-> Reason ]
